@@ -237,12 +237,14 @@ def lease_grid_cases(ctx):
     for i in range(ctx.n(1, 4)):
         r = ctx.rng("leasegrid", i)
         seed = r.getrandbits(30)
-        with G.Grid(num_clients=1, num_servers=6, k=2, n=6, happy=3, seed=seed, timeout=180) as g:
+        with G.Grid(num_clients=2, num_servers=6, k=2, n=6, happy=3, seed=seed, timeout=180) as g:
             c = g.client(0)
-            with open(os.path.join(c.config.get_config_path("private"), "secret"), "rb") as f:
-                lease_secret = base32.a2b(f.read().strip())
-            crs = _tag(lease_secret, b"allmydata_client_renewal_secret_v1")
-            ccs = _tag(lease_secret, b"allmydata_client_cancel_secret_v1")
+            holders_secrets = []
+            for cl in (0, 1):
+                with open(os.path.join(g.client(cl).config.get_config_path("private"), "secret"), "rb") as f:
+                    ls_ = base32.a2b(f.read().strip())
+                holders_secrets.append((_tag(ls_, b"allmydata_client_renewal_secret_v1"), _tag(ls_, b"allmydata_client_cancel_secret_v1")))
+            crs, ccs = holders_secrets[0]
             data = bytes(r.getrandbits(8) for _ in range(r.choice([300, 5000])))
             conv = b"c17-convergence-%d" % i
             cap = g.run(g.upload(data, convergence=conv))
@@ -279,6 +281,37 @@ def lease_grid_cases(ctx):
                 check("second upload of the same file, some holders full or read-only")
             else:
                 ctx.count("lease-grid-second-upload:%s" % (out.error or "other cap"))
+            # another client adds its own lease through check --add-lease (and verify): every lease now on disk must carry
+            # BOTH secrets of ONE of the two clients' chains for this file and server
+            from allmydata.monitor import Monitor
+            for j in range(6):                      # make room for the new lease records again
+                ss = g.server(j)
+                ss.__dict__.pop("get_available_space", None)
+                ss.readonly_storage = False
+                for w in g._wrappers(j):
+                    w.version = ss.get_version()
+            n1 = g.client(1).create_node_from_uri(cap)
+            outc = g.run(n1.check(Monitor(), verify=r.random() < 0.5, add_lease=True), outcome=True)
+            if outc.status != "ok":
+                ctx.count("lease-grid-add-lease-check:%s" % outc.error)
+            else:
+                for j in range(6):
+                    ss = g.server(j)
+                    chains = [(_pair(b"allmydata_bucket_renewal_secret_v1", _pair(b"allmydata_file_renewal_secret_v1", crs_, si), ss.my_nodeid),
+                               _pair(b"allmydata_bucket_cancel_secret_v1", _pair(b"allmydata_file_cancel_secret_v1", ccs_, si), ss.my_nodeid))
+                              for (crs_, ccs_) in holders_secrets]
+                    for shnum, fn in ss.get_shares(si):
+                        leases = list(get_share_file(fn).get_leases())
+                        for ln, lease in enumerate(leases):
+                            ctx.case(("lease2", seed, j, shnum, ln), kind="stored-lease-secrets-after-add-lease")
+                            if not any(lease.is_renew_secret(wr) and lease.is_cancel_secret(wc) for (wr, wc) in chains):
+                                ctx.oracle_fail("call-site:stored-lease-secrets", "after another client's check with add_lease: lease %d on share %d of server %d carries "
+                                                "secrets that are not the renewal AND cancel secret the specification derives for either client" % (ln, shnum, j),
+                                                case={"seed": seed, "when": "check add_lease by client 1", "server": j, "share": shnum, "lease": ln,
+                                                      "renew_matches": [lease.is_renew_secret(wr) for (wr, _wc) in chains],
+                                                      "cancel_matches": [lease.is_cancel_secret(wc) for (_wr, wc) in chains]})
+                        if not any(lease.is_renew_secret(chains[1][0]) for lease in leases):
+                            ctx.count("lease-grid-no-lease-for-client-1")
 
 
 def dirnode_grid_cases(ctx):
